@@ -1,3 +1,286 @@
+/-
+  C18 — script-number encoding is a bijection on minimal encodings.
+  Property theorems only; helper lemmas live in BtcdebProofs/Lemmas.
+  All statements are over unbounded `Int` / arbitrary byte strings.
+-/
 import Btcdeb
+import BtcdebProofs.Lemmas.ScriptNum
 namespace Btcdeb.Proofs.C18
+open Btcdeb Btcdeb.Model
+
+/-- shape of `serialize n` in terms of the magnitude's little-endian bytes -/
+private theorem serialize_shape (n : Int) (hn : n ≠ 0) :
+    ∃ ys a, leBytes n.natAbs = ys ++ [a] ∧ a.toNat ≠ 0 ∧
+      serialize n =
+        if hi a then ys ++ [a] ++ [if n < 0 then 0x80 else 0]
+        else if n < 0 then ys ++ [UInt8.ofNat (a.toNat + 128)]
+        else ys ++ [a] := by
+  have hne : leBytes n.natAbs ≠ [] := by
+    intro h; have := (leBytes_eq_nil_iff _).mp h; omega
+  obtain ⟨ys, a, hya⟩ := exists_snoc_of_ne_nil _ hne
+  refine ⟨ys, a, hya, leBytes_last_ne_zero _ _ _ hya, ?_⟩
+  unfold serialize
+  simp only [hn, if_false, hya, getLast?_snoc, List.dropLast_concat]
+  by_cases h1 : hi a = true <;> by_cases h2 : n < 0 <;> simp [h1, h2]
+
+/-- decoding the encoding of any integer returns the integer -/
+theorem decode_encode (n : Int) : setVch (serialize n) = n := by
+  by_cases hn : n = 0
+  · subst hn; simp [serialize, setVch]
+  obtain ⟨ys, a, hya, ha, hs⟩ := serialize_shape n hn
+  have hm : leValue ys + 256 ^ ys.length * a.toNat = n.natAbs := by
+    rw [← leValue_snoc, ← hya, leValue_leBytes]
+  rw [hs]
+  by_cases h1 : hi a = true
+  · simp only [h1, if_true]
+    rw [List.append_assoc, ← List.append_assoc ys, setVch_snoc]
+    by_cases h2 : n < 0
+    · have : hi (0x80 : UInt8) = true := by decide
+      simp only [h2, if_true, this, leValue_snoc, List.length_append, List.length_cons, List.length_nil]
+      have : (0x80 : UInt8).toNat - 128 = 0 := by decide
+      rw [this, hm]; simp; omega
+    · have : hi (0 : UInt8) = false := by decide
+      simp only [h2, if_false, this, leValue_snoc]
+      have : (0 : UInt8).toNat = 0 := by decide
+      rw [this, hm]; simp; omega
+  · have h1' : hi a = false := by simpa using h1
+    have halt := (hi_false_iff a).mp h1'
+    simp only [h1', Bool.false_eq_true, if_false]
+    by_cases h2 : n < 0
+    · simp only [h2, if_true]
+      rw [setVch_snoc]
+      have hh : hi (UInt8.ofNat (a.toNat + 128)) = true := by
+        rw [hi_iff, toNat_ofNat_add128 halt]; omega
+      simp only [hh, if_true, toNat_ofNat_add128 halt, Nat.add_sub_cancel]
+      rw [hm]; omega
+    · simp only [h2, if_false]
+      rw [setVch_snoc]; simp only [h1', Bool.false_eq_true, if_false]
+      rw [hm]; omega
+
+/-- the encoder only produces strings the minimal-encoding test accepts -/
+theorem encode_minimal (n : Int) : minimalOk (serialize n) = true := by
+  by_cases hn : n = 0
+  · subst hn; simp [serialize, minimalOk]
+  obtain ⟨ys, a, hya, ha, hs⟩ := serialize_shape n hn
+  rw [hs]
+  by_cases h1 : hi a = true
+  · simp only [h1, if_true]
+    rw [List.append_assoc, ← List.append_assoc ys, minimalOk_snoc]
+    simp [h1]
+  · have h1' : hi a = false := by simpa using h1
+    have halt := (hi_false_iff a).mp h1'
+    simp only [h1', Bool.false_eq_true, if_false]
+    by_cases h2 : n < 0
+    · simp only [h2, if_true]; rw [minimalOk_snoc]
+      have : (lo7 (UInt8.ofNat (a.toNat + 128)) == 0) = false := by
+        unfold lo7; rw [toNat_ofNat_add128 halt]; simp; omega
+      rw [this]; rfl
+    · simp only [h2, if_false]; rw [minimalOk_snoc]
+      have : (lo7 a == 0) = false := by unfold lo7; simp; omega
+      rw [this]; rfl
+
+/-- the encoder is injective: distinct integers have distinct encodings -/
+theorem encode_injective (a b : Int) (h : serialize a = serialize b) : a = b := by
+  rw [← decode_encode a, ← decode_encode b, h]
+
+/-- the C++ decoder computes Bitcoin's sign-magnitude value of *every* byte string -/
+theorem decode_spec (b : Bytes) : setVch b = Spec.numValue b := by
+  by_cases hb : b = []
+  · subst hb; rfl
+  obtain ⟨ys, a, rfl⟩ := exists_snoc_of_ne_nil b hb
+  rw [setVch_snoc, numValue_snoc]
+  by_cases h : hi a = true
+  · simp [h, lo7_of_hi h]
+  · have h' : hi a = false := by simpa using h
+    simp [h', lo7_of_not_hi h']
+
+private theorem serialize_of_mag (ys : Bytes) (c : UInt8) (hc : c.toNat ≠ 0) (neg : Bool) :
+    serialize (if neg then -((leValue (ys ++ [c]) : Nat) : Int) else ((leValue (ys ++ [c]) : Nat) : Int)) =
+      if hi c then ys ++ [c] ++ [if neg then 0x80 else 0]
+      else if neg then ys ++ [UInt8.ofNat (c.toNat + 128)]
+      else ys ++ [c] := by
+  have hpos : 0 < leValue (ys ++ [c]) := by
+    rw [leValue_snoc]
+    have : 0 < 256 ^ ys.length * c.toNat := Nat.mul_pos (Nat.pow_pos (by omega)) (by omega)
+    omega
+  generalize hn : (if neg then -((leValue (ys ++ [c]) : Nat) : Int) else ((leValue (ys ++ [c]) : Nat) : Int)) = n
+  have hn0 : n ≠ 0 := by cases neg <;> simp at hn <;> omega
+  have habs : n.natAbs = leValue (ys ++ [c]) := by cases neg <;> simp at hn <;> omega
+  have hneg : (n < 0) ↔ neg = true := by cases neg <;> simp at hn <;> simp <;> omega
+  obtain ⟨ys', a', hya, _, hs⟩ := serialize_shape n hn0
+  rw [habs, leBytes_leValue_snoc ys c hc] at hya
+  have := List.append_inj' hya rfl
+  obtain ⟨rfl, h2⟩ := this
+  simp at h2; subst h2
+  rw [hs]
+  by_cases hneg' : neg = true
+  · have : n < 0 := hneg.mpr hneg'
+    simp [this, hneg']
+  · have : ¬ n < 0 := fun h => hneg' (hneg.mp h)
+    simp [this, hneg']
+
+/-- re-encoding the value of a string the minimality test accepts gives the string back:
+    together with `decode_encode` and `encode_minimal`, encode/decode are mutually inverse
+    bijections between the integers and the minimal encodings -/
+theorem encode_decode (b : Bytes) (h : minimalOk b = true) : serialize (setVch b) = b := by
+  by_cases hb : b = []
+  · subst hb; simp [setVch, serialize]
+  obtain ⟨ys, a, rfl⟩ := exists_snoc_of_ne_nil b hb
+  rw [minimalOk_snoc] at h
+  have halt := u8_lt a
+  by_cases hl : lo7 a = 0
+  · -- sign byte only: the previous byte must carry the top bit
+    simp only [hl, beq_self_eq_true, if_true] at h
+    by_cases hy : ys = []
+    · subst hy; simp at h
+    obtain ⟨zs, p, rfl⟩ := exists_snoc_of_ne_nil ys hy
+    simp only [getLast?_snoc] at h
+    have hp : p.toNat ≠ 0 := by have := (hi_iff p).mp h; omega
+    rw [setVch_snoc]
+    by_cases ha : hi a = true
+    · have ha' : a.toNat = 128 := by have := (hi_iff a).mp ha; unfold lo7 at hl; omega
+      have : a = 0x80 := u8_ext (by rw [ha']; decide)
+      subst this
+      simp only [ha, if_true]
+      have := serialize_of_mag zs p hp true
+      simp only [if_true, h] at this
+      simpa using this
+    · have ha'' : hi a = false := by simpa using ha
+      have ha' : a.toNat = 0 := by have := (hi_false_iff a).mp ha''; unfold lo7 at hl; omega
+      have : a = 0 := u8_ext (by rw [ha']; decide)
+      subst this
+      simp only [ha'', Bool.false_eq_true, if_false]
+      have := serialize_of_mag zs p hp false
+      simp only [Bool.false_eq_true, if_false, h, if_true] at this
+      simpa using this
+  · rw [setVch_snoc]
+    by_cases ha : hi a = true
+    · have h128 := (hi_iff a).mp ha
+      have hlo : lo7 a = a.toNat - 128 := lo7_of_hi ha
+      simp only [ha, if_true]
+      let c : UInt8 := UInt8.ofNat (a.toNat - 128)
+      have hc : c.toNat = a.toNat - 128 := by
+        show (UInt8.ofNat (a.toNat - 128)).toNat = _
+        rw [UInt8.toNat_ofNat']; omega
+      have hc0 : c.toNat ≠ 0 := by rw [hc, ← hlo]; exact hl
+      have hch : hi c = false := by rw [hi_false_iff, hc]; omega
+      have := serialize_of_mag ys c hc0 true
+      simp only [if_true, hch, Bool.false_eq_true, if_false, leValue_snoc, hc] at this
+      rw [this]
+      have hb : UInt8.ofNat (a.toNat - 128 + 128) = a := by
+        apply u8_ext
+        rw [UInt8.toNat_ofNat']; omega
+      rw [hb]
+    · have ha'' : hi a = false := by simpa using ha
+      have hlo : lo7 a = a.toNat := lo7_of_not_hi ha''
+      simp only [ha'', Bool.false_eq_true, if_false]
+      have ha0 : a.toNat ≠ 0 := by rw [← hlo]; exact hl
+      have := serialize_of_mag ys a ha0 false
+      simp only [Bool.false_eq_true, if_false, ha'', leValue_snoc] at this
+      exact this
+
+/-- length of the encoding: at most `k` bytes exactly when |n| < 2^(8k-1) -/
+theorem encode_length_le_iff (n : Int) (k : Nat) (hk : 1 ≤ k) :
+    (serialize n).length ≤ k ↔ n.natAbs < 128 * 256 ^ (k - 1) := by
+  by_cases hn : n = 0
+  · subst hn
+    have : 0 < 128 * 256 ^ (k - 1) := Nat.mul_pos (by omega) (Nat.pow_pos (by omega))
+    simp [serialize]; omega
+  obtain ⟨ys, a, hya, ha, hs⟩ := serialize_shape n hn
+  have hm : leValue ys + 256 ^ ys.length * a.toNat = n.natAbs := by
+    rw [← leValue_snoc, ← hya, leValue_leBytes]
+  have hL := leValue_lt ys
+  have halt := u8_lt a
+  rw [hs, ← hm]
+  obtain ⟨j, rfl⟩ : ∃ j, k = j + 1 := ⟨k - 1, by omega⟩
+  simp only [Nat.add_sub_cancel]
+  by_cases h1 : hi a = true
+  · have h128 := (hi_iff a).mp h1
+    simp only [h1, if_true, List.length_append, List.length_cons, List.length_nil]
+    constructor
+    · intro hle
+      have : 256 ^ (ys.length + 1) ≤ 256 ^ j := Nat.pow_le_pow_right (by omega) (by omega)
+      rw [Nat.pow_succ] at this
+      have h3 : 256 ^ ys.length * a.toNat ≤ 256 ^ ys.length * 255 := Nat.mul_le_mul_left _ (by omega)
+      omega
+    · intro hlt
+      have h3 : 256 ^ ys.length * 128 ≤ 256 ^ ys.length * a.toNat := Nat.mul_le_mul_left _ h128
+      have h4 : 256 ^ ys.length < 256 ^ j := by omega
+      have := (Nat.pow_lt_pow_iff_right (by omega : 1 < 256)).mp h4
+      omega
+  · have h1' : hi a = false := by simpa using h1
+    have h128 := (hi_false_iff a).mp h1'
+    have hlen : (if hi a = true then ys ++ [a] ++ [if n < 0 then (0x80 : UInt8) else 0]
+        else if n < 0 then ys ++ [UInt8.ofNat (a.toNat + 128)] else ys ++ [a]).length = ys.length + 1 := by
+      simp only [h1', Bool.false_eq_true, if_false]; split <;> simp
+    rw [hlen]
+    constructor
+    · intro hle
+      have : 256 ^ ys.length ≤ 256 ^ j := Nat.pow_le_pow_right (by omega) (by omega)
+      have h3 : 256 ^ ys.length * a.toNat ≤ 256 ^ ys.length * 127 := Nat.mul_le_mul_left _ (by omega)
+      omega
+    · intro hlt
+      have h3 : 256 ^ ys.length * 1 ≤ 256 ^ ys.length * a.toNat := Nat.mul_le_mul_left _ (by omega)
+      have h4 : 256 ^ ys.length < 256 ^ (j + 1) := by rw [Nat.pow_succ]; omega
+      have := (Nat.pow_lt_pow_iff_right (by omega : 1 < 256)).mp h4
+      omega
+
+/-- numeric operands: the encoding fits the default 4-byte limit exactly when |n| < 2^31 -/
+theorem encode_length_le_4_iff (n : Int) : (serialize n).length ≤ 4 ↔ n.natAbs < 2 ^ 31 := by
+  rw [encode_length_le_iff n 4 (by omega)]
+
+/-- lock-time operands: the encoding fits 5 bytes exactly when |n| < 2^39 -/
+theorem encode_length_le_5_iff (n : Int) : (serialize n).length ≤ 5 ↔ n.natAbs < 2 ^ 39 := by
+  rw [encode_length_le_iff n 5 (by omega)]
+
+/-- every string of at most `k` bytes decodes to a value of magnitude below 2^(8k-1);
+    in particular everything the constructor admits (k ≤ 5, and even k = 8) fits the C++ `int64_t` -/
+theorem decode_bound (b : Bytes) (k : Nat) (hk : 1 ≤ k) (hb : b.length ≤ k) :
+    (setVch b).natAbs < 128 * 256 ^ (k - 1) := by
+  have hpos : 0 < 128 * 256 ^ (k - 1) := Nat.mul_pos (by omega) (Nat.pow_pos (by omega))
+  by_cases hnil : b = []
+  · subst hnil; simpa [setVch] using hpos
+  obtain ⟨ys, a, rfl⟩ := exists_snoc_of_ne_nil b hnil
+  simp only [List.length_append, List.length_cons, List.length_nil] at hb
+  have hL := leValue_lt ys
+  have halt := u8_lt a
+  have hmono : 256 ^ ys.length ≤ 256 ^ (k - 1) := Nat.pow_le_pow_right (by omega) (by omega)
+  rw [setVch_snoc]
+  by_cases h1 : hi a = true
+  · simp only [h1, if_true, Int.natAbs_neg, Int.natAbs_natCast]
+    have h3 : 256 ^ ys.length * (a.toNat - 128) ≤ 256 ^ ys.length * 127 := Nat.mul_le_mul_left _ (by omega)
+    omega
+  · have h1' : hi a = false := by simpa using h1
+    have h128 := (hi_false_iff a).mp h1'
+    simp only [h1', Bool.false_eq_true, if_false, Int.natAbs_natCast]
+    have h3 : 256 ^ ys.length * a.toNat ≤ 256 ^ ys.length * 127 := Nat.mul_le_mul_left _ (by omega)
+    omega
+
+theorem decode_fits_int64 (b : Bytes) (hb : b.length ≤ 8) : (setVch b).natAbs < 2 ^ 63 := by
+  have h := decode_bound b 8 (by omega) hb
+  have : 128 * 256 ^ (8 - 1) = 2 ^ 63 := by decide
+  rw [this] at h; exact h
+
+/-- what the constructor `CScriptNum(vch, fRequireMinimal, nMaxNumSize)` accepts, and with which value -/
+theorem ctor_accepts_iff (b : Bytes) (rm : Bool) (mx : Nat) (v : Int) :
+    scriptNum b rm mx = .ok v ↔
+      b.length ≤ mx ∧ (rm = true → minimalOk b = true) ∧ v = Spec.numValue b := by
+  unfold scriptNum
+  by_cases h1 : b.length > mx
+  · simp [h1]; omega
+  · by_cases h2 : (rm && !minimalOk b) = true
+    · simp [h1, h2]
+      simp at h2
+      intro _ h; simp [h2.1, h2.2] at h
+    · simp [h1, h2, decode_spec]
+      simp at h2
+      constructor
+      · rintro rfl; exact ⟨by omega, by intro hr; exact h2 hr, rfl⟩
+      · rintro ⟨_, _, rfl⟩; rfl
+
+/-- `getint` saturates at the `int` range -/
+theorem getint_spec (v : Int) :
+    getint v = max (-2147483648) (min 2147483647 v) := by
+  unfold getint intMax intMin; omega
+
 end Btcdeb.Proofs.C18
